@@ -663,6 +663,44 @@ def r34(ctx, repo, upd):
            "non-inverted one the plain result" if ok else
            "inversion of the polygon result lost or applied on the wrong "
            "branch", node=filt, label="polygon inversion")
+    # (c) no return by-passes the inversion decision: a short-cut result
+    #     computed before `self.inverted` is consulted is the plain result
+    #     for inverted polygons as well (allowed only for empty input, whose
+    #     complement is empty too)
+    def decides(src, lab, dst):
+        if src.kind == "test" and lab in ("T", "F"):
+            return any(is_self_attr(e, "inverted")
+                       for e, _t in branch_facts(src.ast.test, lab == "T"))
+        return False
+
+    def empty_edge(src, lab, dst):
+        # edges that establish "the input is empty"
+        if src.kind == "test" and lab in ("T", "F"):
+            for e, t in branch_facts(src.ast.test, lab == "T"):
+                tt = txt(e)
+                if isinstance(e, ast.Compare) and len(e.ops) == 1 and (
+                        "len(" in tt or ".size" in tt or ".shape[0]" in tt) \
+                        and txt(e.comparators[0]) == "0" and (
+                        isinstance(e.ops[0], ast.Eq) and t
+                        or isinstance(e.ops[0], ast.NotEq) and not t):
+                    return True
+        return False
+    r_nodec = fcfg.reach(
+        [fcfg.entry],
+        avoid_edge=lambda s_, l_, d_: l_ == "x" or decides(s_, l_, d_)
+        or empty_edge(s_, l_, d_), include_sources=True)
+    byp = [n for n in fcfg.nodes if n.id in r_nodec and n.kind == "stmt"
+           and isinstance(n.ast, ast.Return)]
+    # a return whose value is an inversion-aware expression (conditional
+    # on self.inverted) decides in place
+    byp = [n for n in byp if not any(
+        is_self_attr(x, "inverted") for x in ast.walk(n.ast))]
+    ctx.ob("R3.4", not byp, "every result passes the inversion decision"
+           if not byp else
+           f"`{short(byp[0].ast, 50)}` returns before `self.inverted` is "
+           f"consulted: for an inverted polygon the short-cut result is not "
+           f"complemented", node=byp[0].ast if byp else filt,
+           label="no return by-passes inversion")
 
 
 def r35(ctx, repo, upd):
@@ -998,6 +1036,12 @@ def run(ctx):
 
 
 MUTANTS = [
+    ("bounding-box short-cut before the inversion (seeded C15_9)", POLY,
+     ("        f = points_in_poly(points=points, verts=self.points)\n",
+      "        if not len(self.points):\n"
+      "            return np.zeros(datax.shape[0], dtype=bool)\n"
+      "        f = points_in_poly(points=points, verts=self.points)\n"),
+     "R3.4"),
     ("scalar features by table membership (seeded C03_7)", CORE,
      ("if dfn.scalar_feature_exists(ft)]", "if ft in dfn.scalar_feature_names]"),
      "R3.7"),
@@ -1158,6 +1202,11 @@ MUTANTS = [
 ]
 
 TWINS = [
+    ("empty input returned early", POLY,
+     ("        f = points_in_poly(points=points, verts=self.points)\n",
+      "        if datax.shape[0] == 0:\n"
+      "            return np.zeros(0, dtype=bool)\n"
+      "        f = points_in_poly(points=points, verts=self.points)\n")),
     ("inversion as early return (refactor C15/1)", POLY,
      ("        if self.inverted:\n            np.invert(f, f)\n\n"
       "        return f\n",
